@@ -291,13 +291,38 @@ static void run_case_impl(const Case &c, pbt::Ctx &ctx)
         n = 2000;
       effN = n;
       Recorder rec(n), inner(n > 0 ? n * m : 0);
-      parallel_for((I)n, [&](I i) {
-        rec.hit((long long)i);
+      Recorder *recp = &rec;
+      bool armed = false;
+      const long long throwAt = n > 0 ? (long long)((unsigned long long)c.inner * 2654435761ull % (unsigned long long)n) : 0;
+      auto body = [&](I i) {
+        if (armed && (long long)i == throwAt)
+          throw std::runtime_error("body failed");
+        recp->hit((long long)i);
         costOf(c.cost, (long long)i, n);
-        if (nest)
+        if (nest && !armed)
           innerLoop(inner, (long long)i);
-        rec.done();
-      });
+        recp->done();
+      };
+#if defined(RKCOMMON_TASKING_TBB) || !THREADED
+      // TBB (and the serial backend) hand an exception thrown by a body to the caller, who may handle it and go on: the SAME
+      // loop - same body object, same calling thread - must afterwards run every index exactly once as if nothing had been
+      if ((c.recheck & 2) && n > 0) {
+        Recorder scratch(n);
+        recp = &scratch;
+        armed = true;
+        bool caught = false;
+        try {
+          parallel_for((I)n, body);
+        } catch (const std::runtime_error &) {
+          caught = true;
+        }
+        armed = false;
+        recp = &rec;
+        PBT_ASSERT_MSG(caught, "the exception thrown by a loop body did not reach the caller of parallel_for");
+        ctx.label("loop after a handled exception in the same loop");
+      }
+#endif
+      parallel_for((I)n, body);
       rec.verify("after parallel_for returned");
       if (nest)
         inner.verify("nested loops after the outer parallel_for returned");
